@@ -243,3 +243,31 @@ def write_evidence(prop, tier_, level, coverage, assumptions, wall, violations, 
         ev.update(extra)
     with open(os.path.join(EVID, "%s.json" % prop), "w") as f:
         json.dump(ev, f, indent=1, sort_keys=True)
+
+
+def noisy_eagain(res):
+    """did a (kernel-backend) call of this pv result end in EAGAIN, or in the safety violation the
+    library raises after 16 consecutive EAGAINs?  openat2 answers EAGAIN whenever any rename or
+    mount happens anywhere on the machine during a walk containing '..' (DESIGN 5): noise, not a verdict"""
+    for o in res.get("out", []):
+        for r in o.get("results", []) or []:
+            if r.get("injected_eagain"):
+                continue
+            if not r.get("ok") and ((r.get("kind") == "OsError" and r.get("errno") == 11) or (r.get("kind") == "SafetyViolation" and "openat2 to abort" in (r.get("msg") or ""))
+                                    or ("capi_id" in r and r.get("errno") in (11,) ) or ("capi_id" in r and r.get("errno") == 18 and "openat2 to abort" in (r.get("msg") or ""))):
+                return True
+    return False
+
+
+def rerun_noisy(cases, results, tag="rerun", attempts=4):
+    """re-execute (sequentially) the cases whose outcome was EAGAIN noise; returns (results, still_noisy)"""
+    results = list(results)
+    for _ in range(attempts):
+        idx = [i for i, r in enumerate(results) if noisy_eagain(r) and not cases[i].get("faults") and not cases[i].get("sched")]
+        if not idx:
+            return results, 0
+        new = run_pv([cases[i] for i in idx], jobs=1, tag=tag)
+        for i, r in zip(idx, new):
+            results[i] = r
+    still = len([i for i, r in enumerate(results) if noisy_eagain(r) and not cases[i].get("faults") and not cases[i].get("sched")])
+    return results, still
